@@ -2,6 +2,7 @@ package checks
 
 import (
 	"fmt"
+	ctok "github.com/pip-services3-gox/pip-services3-expressions-gox/calculator/tokenizers"
 	"strconv"
 	"strings"
 
@@ -113,6 +114,23 @@ func c18ExprExec(c *mon.Case) {
 		if strings.Join(got, "\x01") != strings.Join(want, "\x01") {
 			c.Failf("reported variable names are not the identifiers in variable position in order of first occurrence", "style=%s source=%q\nwant (upper-cased) %q\ngot %q", printStyles[i], src, want, names)
 			return
+		}
+		// the token-list route (blanks kept as tokens, comments dropped, strings decoded) must discover the same names
+		tk := ctok.NewExpressionTokenizer()
+		setOptions(tk, optSkipComments|optSkipEof|optDecodeStrings)
+		p2 := parsers.NewExpressionParser()
+		var err2 error
+		if pn := mon.Try(func() { err2 = p2.ParseTokens(tk.TokenizeBuffer(strings.Trim(src, " \t\r\n"))) }); pn != nil {
+			c.FailPanic("ParseTokens", pn)
+			return
+		}
+		if err2 == nil {
+			if got2 := dedupeCI(p2.VariableNames()); strings.Join(got2, "\x01") != strings.Join(want, "\x01") {
+				c.Failf("reported variable names are not the identifiers in variable position in order of first occurrence (expression handed over as a token list)", "style=%s source=%q\nwant (upper-cased) %q\ngot %q", printStyles[i], src, want, p2.VariableNames())
+				return
+			}
+		} else {
+			c.Count("token list rejected (C02's business)")
 		}
 		// automatic variables: one entry per name, earlier entries and values kept
 		calc := calculator.NewExpressionCalculator()
@@ -412,6 +430,41 @@ func c18Run(c *mon.Case, ops string, kind string) {
 		for i, h := range handed {
 			if bad == "" && (h.Type() != variants.Integer || h.AsInteger() != handedVal[i]) {
 				bad = fmt.Sprintf("a value object the caller handed to SetValue earlier (holding %d) was altered through the collection: it now holds %s", handedVal[i], snap(h))
+			}
+		}
+		if bad == "" {
+			// the list handed out by GetAll is the caller's to keep and to rearrange: the collection must not follow
+			if pn := mon.Try(func() {
+				if kind == "variables" {
+					all := vc.GetAll()
+					for i, j := 0, len(all)-1; i < j; i, j = i+1, j-1 {
+						all[i], all[j] = all[j], all[i]
+					}
+					if len(all) > 0 {
+						all[0] = nil
+					}
+					for i := range model {
+						if vc.Get(i) != realVars[model[i].id] {
+							bad = fmt.Sprintf("after the caller rearranged the list returned by GetAll, entry %d of the collection is another variable", i)
+						}
+					}
+				} else {
+					all := fc.GetAll()
+					for i, j := 0, len(all)-1; i < j; i, j = i+1, j-1 {
+						all[i], all[j] = all[j], all[i]
+					}
+					if len(all) > 0 {
+						all[0] = nil
+					}
+					for i := range model {
+						if fc.Get(i) != realFuncs[model[i].id] {
+							bad = fmt.Sprintf("after the caller rearranged the list returned by GetAll, entry %d of the collection is another function", i)
+						}
+					}
+				}
+			}); pn != nil {
+				c.FailPanic(kind+" collection after GetAll", pn)
+				return
 			}
 		}
 		if bad != "" {
@@ -743,6 +796,20 @@ func buildC18(cfg *mon.Config) []*mon.Sub {
 			if cb.DefaultVariables().Length() != 0 {
 				c.Failf("default variable collections share state", "a variable added to one calculator shows in another")
 				return
+			}
+			// the default collections keep their identity: a handle fetched once stays THE collection across Clear and SetExpression
+			hv, hf := ca.DefaultVariables(), ca.DefaultFunctions()
+			ca.Clear()
+			if err := ca.SetExpression("zq_" + strings.ToLower(name) + " + 1"); err == nil {
+				if ca.DefaultVariables() != hv || ca.DefaultFunctions() != hf || hv.FindByName("ZQ_"+name) == nil {
+					c.Failf("a handle on the default variables fetched before Clear() is no longer the calculator's collection", "after Clear() and SetExpression(%q): same collection object=%v, same function collection=%v, the kept handle lists %d variables", "zq_"+strings.ToLower(name)+" + 1", ca.DefaultVariables() == hv, ca.DefaultFunctions() == hf, hv.Length())
+					return
+				}
+				hv.FindByName("zq_" + name).SetValue(variants.VariantFromInteger(106))
+				if r, err := ca.Evaluate(); err != nil || r == nil || snap(r).String() != "int(107)" {
+					c.Failf("a handle on the default variables fetched before Clear() is no longer the calculator's collection", "value set through the kept handle, then Evaluate() -> %v %v, want 107", snap(r), err)
+					return
+				}
 			}
 			a.Clear()
 			if b.Length() != 37 {
